@@ -19,6 +19,23 @@ REQUIRED = [
     "Pixman.Props.C03.composite_region_canon",
     "Pixman.Props.C03.composite_region_subset",
     "Pixman.Props.C03.composite_boxes_cover_R",
+    # the drawing frame at model level (Props/C03Frame.lean on Lemmas/DrawFrame.lean): C10 scanline store x C03 region
+    # x C17Draw glyph loops x C19 fills x C12 trapezoids
+    "Pixman.DrawFrame.within_storeScanline",
+    "Pixman.DrawFrame.within_bits",
+    "Pixman.DrawFrame.composite_within",
+    "Pixman.DrawFrame.compositeAlpha_bitsWithin",
+    "Pixman.DrawFrame.glyphsNoMask_within",
+    "Pixman.DrawFrame.FillFrame.fillBoxes_frame",
+    "Pixman.DrawFrame.FillFrame.fillRectangles_frame",
+    "Pixman.Props.C03Frame.composite_frame",
+    "Pixman.Props.C03Frame.composite_alpha_frame",
+    "Pixman.Props.C03Frame.fill_frame",
+    "Pixman.Props.C03Frame.glyphs_frame",
+    "Pixman.Props.C03Frame.glyphs_mask_frame",
+    "Pixman.Props.C03Frame.trapezoid_frame_partial",
+    "Pixman.Props.C03Frame.trapezoids_mask_frame",
+    "Pixman.Props.C03Frame.drawing_touches_only_region_partial",
 ]
 
 
@@ -281,7 +298,7 @@ def run_frame(ctx, nsteps, nstreams):
 
 
 def run(ctx):
-    broken = ctx.lean_obligations("Pixman.Props.C03", REQUIRED, extra_modules=["Pixman.Props.C03Final"])
+    broken = ctx.lean_obligations("Pixman.Props.C03", REQUIRED, extra_modules=["Pixman.Props.C03Final", "Pixman.Props.C03Frame"])
     quick = ctx.tier == "quick"
     ctx.cov["samples"] = []
     run_compregion(ctx, 12000 if quick else 400000, 8 if quick else 16)
